@@ -5,7 +5,7 @@
    This file only restates the property theorems; proofs are in frame/*Proofs.v. *)
 From Coq Require Import List NArith ZArith Bool.
 From JV Require Import Bytes FrameBase FrameBaseProofs FrameSpec Split SplitProofs Hdr HdrProofs
-  JsonScan JsonScanProofs RawJson RawJsonProofs Direct DirectProofs DirectMore FrameMore Chunked ChunkedProofs ChunkedHdr ChunkedHdrProofs.
+  JsonScan JsonScanProofs RawJson RawJsonProofs Direct DirectProofs DirectMore FrameMore Chunked ChunkedProofs ChunkedHdr ChunkedHdrProofs RawJsonMore.
 Import ListNotations.
 Local Open Scope N_scope.
 
@@ -162,3 +162,18 @@ Theorem c11_hdr_chunked_round_trip : forall eager req p mt rs st chunks,
   chdr_recv_all cfg_fixed eager req p mt st chunks = map IRec rs ++ [IErr EEOF].
 Proof. exact hdr_chunked_round_trip. Qed.
 Print Assumptions c11_hdr_chunked_round_trip.
+
+(* RawJSON, extended to the literal records true and false (json_record_lit r = json_record r, or
+   r is the text true, or the text false): every JSON value that ends at its own last byte except
+   null, which is the wire form of the EMPTY record.  Numbers stay excluded (c12_rawjson_number_exception). *)
+Theorem c11_rawjson_lit : forall rs,
+  Forall (fun r => r = [] \/ json_record_lit r = true) rs ->
+  send_all RawJson.send rs = Some (concat (map RawJsonProofs.enc rs)) /\
+  RawJson.recv_all (concat (map RawJsonProofs.enc rs)) = map IRec rs ++ [IErr EEOF].
+Proof. exact rawjson_round_trip_lit. Qed.
+Print Assumptions c11_rawjson_lit.
+
+Theorem c11_rawjson_self_delimiting_lit : forall r rest,
+  json_record_lit r = true -> scan (r ++ rest) = Done rest.
+Proof. exact scan_self_delimiting_lit. Qed.
+Print Assumptions c11_rawjson_self_delimiting_lit.
